@@ -347,7 +347,7 @@ def run_pbt(prop, unit, tier, seed, known_ids, only=None):
                         agg["skipsamples"] += sr["skipsamples"]
                 if sr.get("top"):
                     agg.setdefault("top", [])
-                    agg["top"] = sorted(agg["top"] + sr["top"], key=lambda t: -t["ratio"])[:int(os.environ.get("VF_TOP", "12"))]
+                    agg["top"] = sorted(agg["top"] + sr["top"], key=lambda t: -(t.get("ratio") if isinstance(t.get("ratio"), (int, float)) else 1e300))[:int(os.environ.get("VF_TOP", "12"))]
                 if "failure" in sr:
                     failures.append(dict(kind="fail", sub=sr["sub"], failure=sr["failure"]))
         else:
@@ -649,6 +649,8 @@ def main():
     spec = load_spec(prop)
     known = load_known(prop)
     known_ids = [k["id"] for k in known]
+    # development aid: exercise guards of findings that are not (yet) listed; never set by MANIFEST commands
+    known_ids += [x for x in os.environ.get("VF_KNOWN_EXTRA", "").split(",") if x]
 
     if replay:
         replay = os.path.abspath(replay)
